@@ -2,6 +2,7 @@ import Jwt.Lemmas.Policy
 import Jwt.Generated.DispatchTables
 import Jwt.Props.C01
 import Jwt.Lemmas.Builder
+import Jwt.Lemmas.PipelineSig
 /-!
 # C09 — key-strength floor for signing and verification (verification side; signing in C09b)
 -/
@@ -107,5 +108,13 @@ def ec (b : Nat) : KeyItem := { id := 3, kty := .ec, alg := .none, bits := b, is
 example : checkKeyBits .es256 (ec 384) = some .keyTooShort ∧ checkKeyBits .es512 (ec 521) = none ∧
     checkKeyBits .es512 (ec 512) = some .keyTooShort := by decide
 example : checkKeyBits .es256 (rsa 256) = some .keyType ∧ checkHmac .hs256 (rsa 2048) = some .keyType := by decide
+
+/-- **The gate comes first, in the code as written.** In the `jwt_sign` *generated* from `jwt.c` (all combinations of its
+tests, kernel evaluation) both arms ask the size-and-type gate before anything else, and a refusal ends the call with 1
+before the primitive is touched; a signature comes out of the model exactly when the generated code returns 0. -/
+theorem C09_gate_first_is_source :
+    (∀ h p g f : Bool, (h || p) = true → g = true → Jwt.Generated.Pipeline.sign h p g f = (1, false)) ∧
+    (∀ (env : Env) (k : KeyItem) (alg : Alg) (msg : Bytes), (∃ s, (sign env k alg msg).1 = .ok s) ↔ (signGen env k alg msg).1 = 0) :=
+  ⟨fun h p g f hp hg => (sign_closed h p g f).2 hp hg, sign_generated⟩
 
 end Jwt.Props.C09
